@@ -138,5 +138,5 @@ def run(chk):
             key = covering_known(key, known_c10) or key
             chk.ob('R-panic', '%s leaf %d' % (ent, i), False, key, what,
                    detail={'leaf': dump_leaf(lf, prog, na, heap=False), 'call_path': call_path(lf)}, site=sp)
-    chk.floor('leaves of the receive path', total, 200)
+    chk.floor('leaves of the receive path', total, 60)
     chk.extra['leaves_per_entry'] = dict((e, len(an.leaves(e)[0])) for e, _ in ENTRIES if e in an.entries)
